@@ -152,6 +152,8 @@ func init() {
 			return args[1]
 		},
 		"verifNative": func(fr *frame, args []value) value { return false },
+		"verifNativeLock":   func(fr *frame, args []value) value { return nil },
+		"verifNativeUnlock": func(fr *frame, args []value) value { return nil },
 		"verifNativeSleep": func(fr *frame, args []value) value { return nil },
 		"verifReach": func(fr *frame, args []value) value {
 			fr.i.reached[args[0].(string)]++
